@@ -22,6 +22,7 @@ HARNESSES = [
 VARIANTS = ["repaired"]
 MODEL_NEEDS_IMPL = True
 RULE = ("one case = one whole history over <=6 sessions on a fresh component with a scheduler-controlled opdb fake: "
+        "bind4 (the real IPoE handleAck: DHCPv4 bind of a session without IPv4 / renew, then checkpoint), "
         "new (bring-up with allocator answers; pool/static/no address per family, bound/released-v4/approved/created flags "
         "incl. the partially released dual-stack session (State released, IA_NA/IA_PD bound) and its converse, lease and "
         "age classes incl. expired and zero time), ckrel / ck2 (checkpoint immediately followed by release / by another "
@@ -145,6 +146,11 @@ def _history(rng, proto, nops, nsess):
                 store.discard(i)
                 tick += 1
                 ops.append("done:%d" % t)
+        if proto == "ipoe" and live and rng.random() < 0.10:
+            i = rng.choice(live)
+            ops.append("bind4:%d:%d" % (i, rng.choice([600, 3600, 3600, 0])))
+            pend.append((tick, i))
+            tick += 1
         if rng.random() < 0.05:
             ops.append("flip")
         if rng.random() < 0.03 and live:
@@ -195,6 +201,14 @@ def _structured(proto):
         [n(0), "ck:0", "poison:0", "cks:0", "done:0", "crash:p"],
         [n(0), "ck:0", "done:0", "cksf:0", "crash:p", "cksf:0", "rel:0", "crash:p"],
         [n(0), "cksf:0", "crash:p", n(1)],
+        # the real DHCPv4 bind / renew path (handleAck): bind, checkpoint completes or not, stop; renew extends the lease
+        *([[n(0, fl="ac", a="-:-:-", t="0:z:0:z"), "bind4:0:3600", "done:0", "crash:p", n(1)],
+           [n(0, fl="ac", a="-:a:a", t="0:z:3600:10"), "bind4:0:3600", "crash:e", n(1)],
+           [n(0, fl="ac", a="-:-:-", t="0:z:0:z"), "bind4:0:600", "done:0", "bind4:0:3600", "done:1", "crash:p", "bind4:0:600", "done:2", "rel:0", "crash:p"],
+           [n(0, fl="a", a="-:-:-", t="0:z:0:z"), "bind4:0:3600", "cks:0", "crash:p"],
+           [n(0, fl="ac", a="-:-:-"), n(1, fl="ac", a="-:-:-"), n(2, fl="ac", a="-:-:-"), "bind4:0:600", "bind4:1:600", "bind4:2:600", "done:1", "crash:p", "bind4:1:600"],
+           [n(0, fl="rac6", a="-:a:-", t="0:z:3600:10"), "ck:0", "done:0", "bind4:0:3600", "done:1", "crash:p"]]
+          if proto == "ipoe" else []),
         # allocation direction flips after the restart (HA node that lost the election): reservations must survive
         [n(0, a="a:a:a", t="3600:10:3600:10"), "ck:0", "done:0", "crash:p", "flip", n(1, a="a:a:a"), n(2, a="a:a:a")],
         [n(0), n(1), "ck:1", "done:0", "crash:e", "flip", "flip", n(2), n(3)],
